@@ -328,6 +328,7 @@ def main():
                 "theorems": proof["theorems"],
                 "traces_validated_against_impl": corr_total,
                 "char_class_laws_on_rust_tables": law_stats,
+                "leanchecker": proof.get("leanchecker_rc", "not run (quick tier)"),
                 "evaluations": evaluations,
                 "distinct_nontrivial": sum(v["distinct_answers"] for v in stream_stats.values()) +
                                        sum(v.get("distinct_nontrivial", 0) for v in oracle_stats.values()),
